@@ -573,6 +573,29 @@ Inductive scenario :=
 | ScCacheAlloc (has_data : bool)
 | ScPfnRegions (inc cnt : nat).
 
+(* the target call alone (what the C driver brackets with its failure window) *)
+Definition is_some {A} (m : M (option A)) : M bool :=
+  r <- m ;; ret (match r with Some _ => true | None => false end).
+
+Definition run_target (sc : scenario) (sch : list bool) : bool * list event * bool :=
+  match sc with
+  | ScNew nr opts => run (is_some (kdump_new nr opts)) sch
+  | ScClone pinned slots dc xc specs =>
+      run (is_some ((if pinned then kdump_clone_pinned else kdump_clone) slots dc xc specs)) sch
+  | ScXlat _ => run (is_some xlat_new) sch
+  | ScDictNew nr => run (is_some (attr_dict_new nr)) sch
+  | ScDictClone => run (is_some attr_dict_clone) sch
+  | ScCreatePath missing => run (r <- create_attr_path missing [] ;; ret (fst r)) sch
+  | ScClonePath above t =>
+      run (r <- clone_attr_path above true t ;;
+           ret (match fst r with Some _ => true | None => false end)) sch
+  | ScFcacheNew => run (is_some fcache_new) sch
+  | ScCacheAlloc d => run (is_some (cache_alloc d)) sch
+  | ScPfnRegions inc cnt =>
+      run (m <- add_regions inc {| pm_regions := None; pm_n := 0; pm_list := [] |} (seq 0 cnt) ;;
+           ret (Nat.eqb (pm_n m) cnt)) sch
+  end.
+
 (* run the target under the schedule, then free what a successful call returned
    (the C driver does the same); result: did the call succeed, its trace *)
 Definition some_then {A} (m : M (option A)) (cleanup : A -> M unit) : M bool :=
